@@ -2,7 +2,10 @@ module vh
 
 go 1.23.3
 
-require github.com/movio/bramble v0.0.0
+require (
+	github.com/movio/bramble v0.0.0
+	github.com/vektah/gqlparser/v2 v2.5.16
+)
 
 require (
 	github.com/99designs/gqlgen v0.17.41 // indirect
@@ -26,7 +29,6 @@ require (
 	github.com/prometheus/common v0.31.1 // indirect
 	github.com/prometheus/procfs v0.7.3 // indirect
 	github.com/sosodev/duration v1.1.0 // indirect
-	github.com/vektah/gqlparser/v2 v2.5.16 // indirect
 	go.opentelemetry.io/contrib/instrumentation/net/http/otelhttp v0.52.0 // indirect
 	go.opentelemetry.io/otel v1.27.0 // indirect
 	go.opentelemetry.io/otel/exporters/otlp/otlpmetric/otlpmetricgrpc v1.27.0 // indirect
